@@ -2,7 +2,9 @@ import Driver.Common
 import Driver.ConsensusE
 import Lumina.Model.HeaderVerifyBridge
 import Lumina.Model.C01Consts
+import Lumina.Model.CommitBridge
 import Lumina.Spec.C01
+import Lumina.Spec.C03
 
 open Lumina.Util Lumina.Model.Commit Lumina.Model.HeaderVerify Driver.ConsensusE
 
@@ -10,10 +12,22 @@ namespace Driver.C01
 
 def runValidate (p : ParsedEH) : ValOut := validate p.prims sourceConsts p.eh
 
+/-- S9: `validator_set.verify_commit_light(&header.chain_id, &h, &commit)` called directly with a
+    height `h` chosen by the op (inside `validate` the commit's own `validate_basic` and the
+    commit-height comparison shadow the "No signature in CommitSig" and "height != commit height"
+    exits of `verify_commit_light`) -/
+def runVcl (h : Nat) (p : ParsedEH) : ValOut :=
+  commitOut (verifyCommitLight (sigOracle p.prims p.eh) sourceConsts.lightNum sourceConsts.lightDen
+    p.eh.valset.toValSet h p.eh.commit.height (p.eh.commit.sigs.map EntryF.toCSig))
+
 def run (line : String) : String :=
   let ws := words line
   match ws.head? with
   | some "reset" => "ok"
+  | some "vcl" =>
+    match natArg? ws "h", parseEH ws "" with
+    | some h, some p => showValOut (runVcl h p) ++ " " ++ p.words
+    | _, _ => "bad-op"
   | some "validate" =>
     match parseEH ws "" with
     | some p => showValOut (runValidate p) ++ " " ++ p.words
@@ -71,6 +85,23 @@ def spec (_ : Unit) (opl : String) (obs : String) : String :=
         "specfail C01/accepted-unbound accepted a header whose parts are not bound together"
       else "specok"
     | none => "specfail C01/unparsed"
+  | some "vcl" =>
+    match natArg? ws "h", parseEHObs ws "" obs with
+    | some h, some p =>
+      let accepted := (words obs).head? == some "ok"
+      let vs := p.eh.valset.toValSet
+      let inp := specInput vs h p.eh.commit.height (p.eh.commit.sigs.map EntryF.toCSig)
+      if p.bits != p.ibits then
+        "specfail C01/sign-bytes signature validity through lumina's vote_sign_bytes differs from validity over the canonical vote"
+      else if accepted && h != p.eh.commit.height then
+        "specfail C01/vcl-height commit accepted for a height other than the commit's"
+      else if !vs.wf then "specskip"
+      else if !Lumina.Spec.C03.specLightSound inp (validOf p) accepted then
+        "specfail C01/vcl-sound commit accepted without 2/3 of valid power"
+      else if !Lumina.Spec.C03.specLightExact inp (validOf p) accepted then
+        "specfail C01/vcl-exact verdict differs from (signing power > 2/3)"
+      else "specok"
+    | _, _ => "specfail C01/unparsed"
   | some "mutate" =>
     match obs.splitOn " | ", arg? ws "fam", natArg? ws "idx" with
     | [ob, om], some fam, some k =>
